@@ -511,6 +511,13 @@ def queue_rules(R, P):
             okl = any(f.show(RU.uncast(f, RU.arg(f, e.node, 2))) == cv[0] for e in reads)
     R.check(okc and okl, "INVALIDATE", "clear:marks-every-handle", "%s()" % f.name, "every registered handle is marked not-in-queue before both arrays are cleared",
             "clear does not mark every handle not-in-queue before clearing")
+    # ... and both arrays are emptied on EVERY path: an early return (for a queue that never had a handle, say) leaves the
+    # elements in place - size and contents unchanged, a full static queue keeps refusing pushes
+    for which in ("container", "backpointers"):
+        cs_ = [c for c in clr if argstr(f, c.node, 0) == "queue->" + which]
+        tsx_ = Typestate(f, 0, lambda e, s_, cs_=cs_: 1 if any(e is c for c in cs_) else s_)
+        R.check(bool(cs_) and tsx_.exit_states == {1}, "INVALIDATE", "clear:empties-%s-on-every-path" % which, "%s()" % f.name, "aws_array_list_clear(&queue->%s) on every path" % which,
+                "aws_priority_queue_clear can return without clearing queue->%s (exit states %s): the queue keeps its elements" % (which, sorted(tsx_.exit_states)))
     f = fns["aws_priority_queue_node_init"]
     st = f.field_accesses(field="current_index", modes=("w",))
     R.check(len(st) == 1 and f.is_const(_assignment_of(f, st[0])["a"][1]) == SIZE_MAX, "INVALIDATE", "node-init:not-in-queue", "%s()" % f.name, "a fresh handle is not-in-queue")
@@ -609,6 +616,7 @@ MUTANTS = [
      "old": "node->current_index < aws_array_list_length(&queue->container), AWS_ERROR_PRIORITY_QUEUE_BAD_NODE", "new": "node->current_index <= aws_array_list_length(&queue->container), AWS_ERROR_PRIORITY_QUEUE_BAD_NODE"},
     {"name": "sift-down-polarity", "file": PQ, "expect": "HEAP-SHAPE",
      "old": "            if (queue->pred(first_item, other_item) > 0) {\n                first = right;", "new": "            if (queue->pred(first_item, other_item) >= 0) {\n                first = right;"},
+    {"name": "clear-returns-early-without-handles", "file": PQ, "expect": "INVALIDATE", "old": "    size_t backpointer_count = aws_array_list_length(&queue->backpointers);\n    for (size_t i = 0; i < backpointer_count; ++i) {", "new": "    size_t backpointer_count = aws_array_list_length(&queue->backpointers);\n    if (backpointer_count == 0) {\n        return;\n    }\n    for (size_t i = 0; i < backpointer_count; ++i) {"},
     {"name": "clear-keeps-handles", "file": PQ, "expect": "INVALIDATE", "old": "            node->current_index = SIZE_MAX;\n        }\n    }\n\n    aws_array_list_clear", "new": "        }\n    }\n\n    aws_array_list_clear"},
 ]
 
